@@ -28,6 +28,8 @@ type Part struct {
 	Desc bool
 	// Bare: the DDL writes the expression as it is (a function call), not wrapped in parentheses.
 	Bare bool
+	// AscKw: the DDL spells the default direction out ("ASC").
+	AscKw bool
 }
 
 type Idx struct {
@@ -300,6 +302,11 @@ var Features = []Feature{
 	{Name: "idx_expr_desc", Apply: func(d *DB) {
 		t := d.Table("t")
 		t.Idx = append(t.Idx, Idx{Name: "idx_expr_desc", Parts: []Part{{Col: "a"}, {Expr: "id * 2", Desc: true}}})
+	}},
+	// the default direction of an expression part (and of a column part) spelled out.
+	{Name: "idx_expr_asc_keyword", Apply: func(d *DB) {
+		t := d.Table("t")
+		t.Idx = append(t.Idx, Idx{Name: "idx_expr_asc", Parts: []Part{{Expr: "id * 3", AscKw: true}, {Col: "a", AscKw: true}}})
 	}},
 	{Name: "uq_b_inline", Group: "bidx", Apply: func(d *DB) {
 		t := d.Table("t")
@@ -639,6 +646,8 @@ func (t *Table) DDL(spelling int) []string {
 			}
 			if p.Desc {
 				x += " DESC"
+			} else if p.AscKw {
+				x += " ASC"
 			}
 			ps = append(ps, x)
 		}
